@@ -30,6 +30,35 @@ PROPS = {
             "SystemTime::now / duration_since (clock source)",
         ],
     },
+    "C07": {
+        "title": "Chunked encoder",
+        "design_ref": "DESIGN.md section 3 (C07)",
+        "technique": "Verus contracts on the real copy_chunked_async / hex_digit / trim_prefix against an RFC 7230 4.1 encoding spec over the reader's event history",
+        "level_text": "Deductive proof, for every sequence of read events the reader contract allows (any piece length 1..=65528, any number of "
+                      "reads, EOF or error at any point) and every writer failure point, unbounded: the bytes written are exactly the "
+                      "concatenation of hex_min(len) CRLF data CRLF per piece, followed by 0 CRLF CRLF iff the reader reported end of stream; "
+                      "a reader error ends the output without the terminating chunk; a writer error leaves a prefix; the returned count "
+                      "is payload+3; all indexing in bounds, every unwrap/unimplemented unreachable, the loop terminates on finite streams.",
+        "level_note": "Assumed contracts of futures-io/futures-lite read and write_all (contracts/io.pre.rs); streams are finite and shorter "
+                      "than 2^64-3 bytes; byte-string literal axioms are generated from the literal tokens; async/.await removed (D1/D2): "
+                      "cancellation between chunks is not covered. EventReceiver does not meet the reader contract's 'Ok(0) only at end of "
+                      "stream' reading (an event with empty data encodes to 0 bytes) -- recorded under C11 (not applicable).",
+        "verus": ["chunked"],
+        "verus_thorough": [],
+        "kani": [],
+        "witness": "c07",
+        "assumptions": [
+            "assumed contract (futures-lite AsyncReadExt::read): returns Ok(n) with n <= buf.len() bytes placed at buf[..n], Ok(0), or Err; nothing else is consumed",
+            "assumed contract (futures-lite AsyncWriteExt::write_all): Ok => whole slice appended; Err => a prefix of the slice appended",
+            "streams are finite (reader.limit()), total length + 3 <= u64::MAX",
+            "byte-string literals denote their bytes (axiom generated from each literal token of the extracted function)",
+            "usize is 64 bits in the verified configuration (Verus default arch assumption for `as u64`)",
+        ],
+        "not_covered": [
+            "cancellation of the future between chunks",
+            "the call site in write_http_response (format!-built head; see C06)",
+        ],
+    },
 }
 
 NOT_APPLICABLE = {}
